@@ -73,6 +73,9 @@ pub enum Kind {
     /// a `serde_json::Value` (1), RON (2) or JSON from a simulated reader (3); `second` and `third` are the
     /// values of the other positions
     Container { form: u8, via: u8, n: u8, second: Vec<u64>, third: Vec<u64>, read: IoPlan },
+    /// `as_uint` on the 64- and 128-bit unsigned-integer forms with every bit in use (`hi`, `lo`: the two halves of
+    /// the value), through JSON text, read back from a string or from a simulated reader
+    WideUint { which: u8, hi: u64, lo: u64, read: Option<IoPlan> },
 }
 
 impl Kind {
@@ -91,6 +94,7 @@ impl Kind {
             Kind::Attrs { .. } => "helpers-as-attributes",
             Kind::Enum { .. } => "enum-payload",
             Kind::Container { .. } => "container",
+            Kind::WideUint { .. } => "as_uint-wide",
         }
     }
 }
@@ -408,7 +412,7 @@ impl World for C20 {
         }
         let c = self.cases[(index % self.cases.len() as u64) as usize];
         let faults = rng.chance(4, 10);
-        let kind_pick = rng.below(28);
+        let kind_pick = rng.below(29);
         let struct_like = c.shape == Shape::Struct;
         let has_alpha = c.wrapper != Wrapper::None;
         let (kind, raw) = match kind_pick {
@@ -508,6 +512,19 @@ impl World for C20 {
                 let third: Vec<u64> = gen_vals(rng, c, false).iter().map(|v| v.to_bits()).collect();
                 let read = if via == 3 { gen_io(rng, false, 40 + c.nvals * 40) } else { IoPlan::clean() };
                 (Kind::Container { form, via, n: rng.below(4) as u8, second, third, read }, false)
+            }
+            28 => {
+                let word = |rng: &mut Rng| match rng.below(8) {
+                    0 => 0u64,
+                    1 => u64::MAX,
+                    2 => 1,
+                    3 => 1 << 63,
+                    4 => (1 << 53) + 1,
+                    _ => rng.next_u64(),
+                };
+                let (hi, lo) = (word(rng), word(rng));
+                let read = if rng.chance(1, 2) { Some(gen_io(rng, false, 40)) } else { None };
+                (Kind::WideUint { which: rng.below(5) as u8, hi, lo, read }, false)
             }
             _ => (Kind::Value, false),
         };
@@ -648,6 +665,16 @@ impl World for C20 {
                 let simple: Vec<u64> = (0..second.len()).map(|j| if scalar_of(c, j).starts_with('u') { (j + 2) as f64 } else { 0.125 * (j + 1) as f64 }.to_bits()).collect();
                 if *second != simple || *third != simple {
                     out.push(with(Kind::Container { form: *form, via: *via, n: *n, second: simple.clone(), third: simple, read: read.clone() }));
+                }
+            }
+            Kind::WideUint { which, hi, lo, read } => {
+                if read.is_some() {
+                    out.push(with(Kind::WideUint { which: *which, hi: *hi, lo: *lo, read: None }));
+                }
+                for (h, l) in [(0u64, *lo), (*hi, 0u64), (1, 0), (1, 1), (*hi >> 1, *lo), (*hi, *lo >> 1)] {
+                    if (h, l) != (*hi, *lo) {
+                        out.push(with(Kind::WideUint { which: *which, hi: h, lo: l, read: read.clone() }));
+                    }
                 }
             }
             Kind::RonOptional { style, missing } => {
@@ -1868,6 +1895,32 @@ fn execute(c: &'static CaseDesc, inner: Option<&'static CaseDesc>, vals: &[f64],
                 Err(e) => {
                     ctx.checked();
                     ctx.fail("deserialize-failed", &key, format!("{}: {fname} through {vname}: {e}", c.name));
+                }
+            }
+        }
+        Kind::WideUint { which, hi, lo, read } => {
+            let all = cases::wide::all();
+            let w = all[*which as usize % all.len()];
+            let key = format!("as_uint:{}", w.name);
+            ctx.cell(w.name, "as_uint-wide");
+            let v: u128 = ((*hi as u128) << 64) | *lo as u128;
+            let v = if w.bits == 64 { v & u64::MAX as u128 } else { v };
+            ctx.state(&(w.name, kname, read.is_some(), v > u64::MAX as u128));
+            ctx.step();
+            ctx.checked();
+            match (w.round)(v, read.as_ref()) {
+                Ok((text, cast_digits, back)) => {
+                    if v > u64::MAX as u128 {
+                        ctx.probe("as_uint-value-above-u64-max");
+                    }
+                    if text != cast_digits {
+                        ctx.fail("as_uint-shape", &key, format!("{}: as_uint wrote {text}, cast::into_uint gives {cast_digits}", w.name));
+                    } else if back != v {
+                        ctx.fail("round-trip:as_uint", &key, format!("{}: {v} written as {text} came back as {back}", w.name));
+                    }
+                }
+                Err(e) => {
+                    ctx.fail("deserialize-failed", &key, format!("{}: as_uint round trip of {v} through JSON failed: {e}", w.name));
                 }
             }
         }
